@@ -143,6 +143,8 @@ def run(ck):
         ck.violation("2", "T4-guarded-by", b, "merge:ret=pending", "the deferred action is never merged into the post-action that is applied (a self-directed disable()/update() from a callback would be lost)", site=b.where(sw))
     for i, j, st in merges:
         guards = [g for g in T.switches_on_discr_of(b, lambda pl: pl["l"] == ret_local and not pl["p"]) if g != sw and g in dl.blocks]
+        # .. or the test is made on the payload of process_events' own result (`match result { Ok(Continue) => pending, .. }`)
+        guards += [g for g in T.switches_on_discr_of(b, lambda pl: bool(pl["p"]) and f.adt_path(pl["t"]) == PA and all(r == ("call", dl.pe.bb) for r, p_ in b.resolve(pl))) if g != sw and g in dl.blocks and g not in guards]
         eq_guards = []
         for cs in T.calls(b, name=("eq", "ne"), trait="PartialEq"):
             if cs.bb in dl.blocks and any(T.refers_to_local(b, a, ret_local) for a in cs.args):
